@@ -10,7 +10,7 @@ theorem inv_wkAcquire {ga : Nat → Int} {s s' : S} {t : Tid} (hi : Inv ga s)
   constructor <;> inv_auto
 
 theorem inv_wkPop {ga : Nat → Int} {s s' : S} {t : Tid} (hi : Inv ga s)
-    (hs : Step Cfg.fixed ga s t .wkPop s') : Inv ga s' := by
+    {b : Nat} (hs : Step Cfg.fixed ga s t (.wkPop b) s') : Inv ga s' := by
   obtain ⟨h1,h2,h3,h4,h5,h6,h7,h8,h9,h10,h11,h12,h13,h14,h15,h16,h17,h18,h19,h20,h21,h22,h23,h24,h25,h26,h27⟩ := hi
   cases hs
   constructor <;> inv_auto
